@@ -194,8 +194,14 @@ def _judge(p, cfg, devs, ex, info, dev):
             'time.sleep', 'queue.get(blocked)', 'timer.wait', 'settle')))
         mainb = [b for b in (s.blocked_report or []) if b['thread'] == 'main']
         where = (mainb[0]['stack'][-2:] if mainb else [])
-        viol('%s:%s' % ('hang' if s.status == 'timelimit' else 'deadlock',
-                        '/'.join(x.split(' ')[-1] for x in where) or 'main'),
+        idle = {('_ParamUpdater', 'queue.get(blocked)'), ('_IncomingPacketHandler', 'time.sleep'),
+                ('_IncomingPacketHandler', 'queue.get(blocked)'), ('_ExtendedTypeFetcher', 'queue.get(blocked)')}
+        others = sorted(set('%s@%s' % (b['thread'].split(':')[0], b['label'].replace('(blocked)', ''))
+                            for b in (s.blocked_report or [])
+                            if b['thread'] != 'main' and not b['thread'].startswith(('env', 'delayed'))
+                            and (b['thread'].split(':')[0], b['label']) not in idle and b['state'] != 'done'))
+        viol('%s:%s:%s' % ('hang' if s.status == 'timelimit' else 'deadlock',
+                           '/'.join(x.split(' ')[-1] for x in where) or 'main', '+'.join(others) or 'nobody'),
              'user call did not complete (%s); main blocked at %r; other blocked threads: %r' % (s.status, where, blocked[:4]))
         return
     for e in ev1:
@@ -280,7 +286,8 @@ def _judge(p, cfg, devs, ex, info, dev):
     # (5) second session
     if not info.get('s2_full'):
         names2 = [e[2] for e in ev2 if e[1] == 'cb']
-        viol('second_session_incomplete:' + (names2[-1] if names2 else 'nothing'),
+        viol('second_session_incomplete:' + (names2[-1] if names2 else 'nothing') + (
+            ':' + info['s2_exc'].split("'")[1][:30] if "'" in info.get('s2_exc', '') else ''),
              'fault-free second session did not reach fully_connected: callbacks %r %s' % (names2, info.get('s2_exc', '')))
     else:
         exp = {}
